@@ -544,6 +544,21 @@ func TestC18(t *testing.T) {
 		}
 	}
 	ea.done(true)
+	// dense overlapping hits: a repetitive sequence holds more occurrences of a self-overlapping query than any count
+	// derived from len(seq)/len(query) allows for
+	eo := enumPart(t, c18Prop, st, "dense-overlaps")
+	for _, unit := range []string{"a", "ac", "acg", "aac"} {
+		for _, n := range []int{8, 19, 20, 33, 64, 100, 257, pick(1000, 20000)} {
+			seq := strings.Repeat(unit, n/len(unit)+1)[:n]
+			for ql := 1; ql <= 7 && ql < n; ql++ {
+				q := strings.Repeat(unit, 8)[:ql]
+				if !eo.try(c18Case{Mode: "search", Seq: seq, Query: q}) || !eo.try(c18Case{Mode: "match", Seq: seq, Query: q}) {
+					return
+				}
+			}
+		}
+	}
+	eo.done(true)
 	// every query letter x sequence letter of the IUPAC alphabet, both cases (query 'n' only against letters)
 	e2 := enumPart(t, c18Prop, st, "all-letter-pairs")
 	letters := []byte(iupacLower + "ACGTURYKMSWBDHVN")
